@@ -772,6 +772,23 @@ func init() {
 		if !ok {
 			return tuple{[]value(nil), fsNotExist(path, "open")}
 		}
+		if pf, isPayload := f.(*payloadFile); isPayload {
+			// a file holding modelled backup payloads: its concrete parts as they are, every
+			// payload as an opaque run of bytes of its length (enough for the program under test
+			// or a harness to see that the file is not what it was)
+			var out []value
+			for _, part := range pf.parts {
+				switch x := part.(type) {
+				case []value:
+					out = append(out, x...)
+				case *backupPayload:
+					for k := 0; k < 16+8*len(x.ents); k++ {
+						out = append(out, uint8(0xBA))
+					}
+				}
+			}
+			return tuple{out, iface{}}
+		}
 		return tuple{cloneBytes(f), iface{}}
 	}
 	E("os.WriteFile", writeFile)
@@ -985,6 +1002,8 @@ func fileLen(fr *frame, f value) int {
 		for _, part := range x.parts {
 			if bp, ok := part.(*backupPayload); ok {
 				n += 16 + 8*len(bp.ents)
+			} else if bs, ok := part.([]value); ok {
+				n += len(bs)
 			}
 		}
 		return n
@@ -1004,6 +1023,9 @@ func appendPayload(cur value, pl interface{}) value {
 	n := &payloadFile{}
 	if pf != nil {
 		n.parts = append(n.parts, pf.parts...)
+	} else if bs, isBytes := cur.([]value); isBytes && len(bs) > 0 {
+		// appending to a file with ordinary content keeps that content
+		n.parts = append(n.parts, append([]value{}, bs...))
 	}
 	n.parts = append(n.parts, pl)
 	return n
